@@ -1,6 +1,7 @@
 package sam
 
 import (
+	"bytes"
 	biogosam "github.com/biogo/hts/sam"
 	"github.com/virus-evolution/gofasta/pkg/fastaio"
 )
@@ -216,4 +217,29 @@ func VH_C01_wiring() {
 	}
 	vAssert("C01.d.writer-done", len(cDone) == 1 && len(cErr) == 0)
 	vAssert("C01.d.output-in-input-order", string(w.buf) == exp)
+}
+
+// VH_C01_e2e: the whole ToMultiAlign command function on SAM text (biogo parser, grouping, flag filter,
+// worker goroutines, writer) for a small file whose bases are symbolic.
+func VH_C01_e2e() {
+	b := func(n string) string { return string([]byte{vNuc(n, "ACGT")}) }
+	samTxt := "@HD\tVN:1.6\n@SQ\tSN:ref\tLN:6\n" +
+		"q1\t0\tref\t2\t60\t2M1I2M\t*\t0\t0\t" + b("a0") + b("a1") + b("a2") + b("a3") + b("a4") + "\t*\n" +
+		"u1\t4\t*\t0\t0\t*\t*\t0\t0\tACGT\t*\n" +
+		"q2\t0\tref\t1\t60\t1M2D2M\t*\t0\t0\t" + b("b0") + b("b1") + b("b2") + "\t*\n" +
+		"q2\t256\tref\t1\t60\t3M\t*\t0\t0\tTTT\t*\n" +
+		"q2\t2048\tref\t5\t60\t1S2M\t*\t0\t0\tG" + b("b3") + b("b4") + "\t*\n"
+	w := &vCapture{}
+	err := ToMultiAlign(bytes.NewReader([]byte(samTxt)), w, 0, -1, -1, false, 2)
+	vAssert("C01.e2e.no-error", err == nil)
+	exp := ">q1\n-" + b("a0") + b("a1") + b("a3") + b("a4") + "-\n" +
+		">q2\n" + b("b0") + "--" + b("b1") + vFlat(b("b2"), b("b3")) + b("b4") + "\n"
+	vAssert("C01.e2e.output", string(w.buf) == exp)
+}
+
+func vFlat(a, b string) string {
+	if a == b {
+		return a
+	}
+	return "N"
 }
